@@ -298,6 +298,18 @@ def evaluate(case):
         clear(d)
         e3 = run(lib_drive, copy.deepcopy(kw))
         s3 = snapshot(d)
+        clear(d)
+        # the configuration is the caller's: running it leaves it as it was, and running the very same dictionary again gives the same files
+        shared = copy.deepcopy(kw)
+        ea = run(pystog_cli, shared)
+        sa = snapshot(d)
+        clear(d)
+        eb = run(pystog_cli, shared)
+        sb = snapshot(d)
+        clear(d)
+        if ea is None and (eb is not None or sa != sb):
+            fails.append("running pystog_cli twice with the same configuration dictionary gives different results the second time "
+                         f"({eb or sorted(set(sa) ^ set(sb)) or 'file contents differ'}): the first run changed the caller's configuration")
         if e1 is not None and e2 is None:
             fails.append(f"omitting optional keys {case['absent']} makes pystog_cli raise {e1}; with their defaults supplied it runs")
         elif e1 is None and e2 is None and s1 != s2:
